@@ -81,6 +81,9 @@ pub enum Step {
     WaitClientMessages(usize),
     /// stay silent for this long (virtual)
     SleepMs(u64),
+    /// let this much REAL time pass (the event loop is then polled once): for effects that reach the
+    /// harness through the kernel in real time, such as the death of a helper process the client killed
+    RealPauseMs(u64),
     /// SSH only (elsewhere nothing happens): an extended-data packet (stderr of the subsystem) on the
     /// netconf channel; it is not part of the NETCONF byte stream
     SshStderr(Vec<u8>),
@@ -495,6 +498,11 @@ async fn play(steps: Vec<Step>, mut io: PeerIo, ps: Ps, out: Arc<Mutex<Outcome>>
                 tokio::time::sleep(Duration::from_millis(1)).await;
             }
             Step::SleepMs(ms) => tokio::time::sleep(Duration::from_millis(ms)).await,
+            Step::RealPauseMs(ms) => {
+                std::thread::sleep(Duration::from_millis(ms));
+                tokio::time::sleep(Duration::from_millis(1)).await;
+                tokio::task::yield_now().await;
+            }
             Step::SshStderr(data) => {
                 if let PeerIo::Ssh(chan, handle, _) = &mut io {
                     handle.extended_data(*chan, 1, russh::CryptoVec::from_slice(&data)).await.map_err(|_| "peer ssh data failed".to_string())?;
